@@ -1488,3 +1488,310 @@ Proof.
   induction l as [|x l IH]; intros H; [destruct H|]. cbn [fold_right].
   destruct H as [->|H]; [lia|]. specialize (IH H). lia.
 Qed.
+
+(* ================================================================== assembling the result rows *)
+Lemma filter_length_le {T} (p : T -> bool) l : (length (filter p l) <= length l)%nat.
+Proof. induction l as [|x l IH]; cbn [filter length]; [lia|]. destruct (p x); cbn [length]; lia. Qed.
+Lemma prodZ_pos l : (forall x, In x l -> 0 < x) -> 0 < prodZ l.
+Proof.
+  induction l as [|y l IH]; intros H; [cbn; lia|]. rewrite prodZ_cons.
+  apply Z.mul_pos_pos; [apply H; left; reflexivity|apply IH; intros; apply H; right; assumption].
+Qed.
+Lemma prodZ_zero l : In 0 l -> prodZ l = 0.
+Proof.
+  induction l as [|y l IH]; intros H; [destruct H|]. rewrite prodZ_cons.
+  destruct H as [->|H]; [ring|rewrite (IH H); ring].
+Qed.
+
+Lemma merge_rc_nth n (R : nat -> rrow) i : (i < n)%nat ->
+  merge_rc n R i =
+    let a := R i in let b := R (i + n)%nat in
+    let p := psq (pmin (r_p a) (r_p b)) in
+    if r_score a <=? r_score b then mkrr p (r_score b) (r_off b) (r_ovl b) 1
+    else mkrr p (r_score a) (r_off a) (r_ovl a) 0.
+Proof.
+  intros Hi. unfold merge_rc.
+  set (f := fun (R : nat -> rrow) i =>
+     let a := R i in let b := R (i + n)%nat in
+     let p := psq (pmin (r_p a) (r_p b)) in
+     aset R i (if r_score a <=? r_score b then mkrr p (r_score b) (r_off b) (r_ovl b) 1
+               else mkrr p (r_score a) (r_off a) (r_ovl a) 0)).
+  assert (G : (fun k R' => (forall j, (j < k)%nat -> R' j = f R j j) /\ (forall j, (k <= j)%nat -> R' j = R j))
+                (0 + n)%nat (fold_left f (seq 0 n) R)).
+  { apply (fold_seq_inv f (fun k R' => (forall j, (j < k)%nat -> R' j = f R j j) /\
+                                       (forall j, (k <= j)%nat -> R' j = R j))).
+    - split; [intros; lia|reflexivity].
+    - intros k R' Hk [H1 H2]. split.
+      + intros j Hj. destruct (Nat.eq_dec j k) as [->|Ne].
+        * unfold f at 1. cbn zeta. rewrite aset_same. unfold f. cbn zeta. rewrite aset_same.
+          rewrite !H2 by lia. reflexivity.
+        * unfold f at 1. cbn zeta. rewrite aset_other by exact Ne. apply H1. lia.
+      + intros j Hj. unfold f. cbn zeta. rewrite aset_other by lia. apply H2. lia. }
+  destruct G as [G1 _]. rewrite G1 by lia. unfold f. cbn zeta. rewrite aset_same. reflexivity.
+Qed.
+
+Section Final.
+Variable c : call.
+Hypothesis W : WF c.
+Variable s : scratch.
+Let t := c_t c.
+Let q := c_q c.
+Let nq := q_nq q.
+Let nb := t_nbins t.
+Let off := q_off q.
+Let nlen := nlen_of t (c_d c).
+Let F := stage_f t q.
+Let tmax := tmax_of t.
+Let gam := stage_gamma fixed q (sGam s).
+Let B := snd (backgrounds fixed F nq nb off nlen tmax (sAcs s) (sB s)).
+Let R1 := p_values fixed gam B (t_rrinv t) nq off nlen (t_lens t) 0 0 (sRes s).
+Let sts := starts (t_lens t) 0.
+
+Lemma rows_unfold :
+  snd (run_query_ver fixed t (c_d c) q s)
+  = map (if t_rc t then merge_rc (n_in t) R1 else clear_strand (length (t_lens t)) R1) (seq 0 (n_in t)).
+Proof. reflexivity. Qed.
+
+Lemma nt_range j : (j < length (t_lens t))%nat -> (1 <= nth j (t_lens t) 0 <= tmax)%nat.
+Proof.
+  intros Hj. pose proof (nth_In (t_lens t) 0%nat Hj) as Hin. split.
+  - apply (wf_tlpos c W). exact Hin.
+  - apply tmax_ge. exact Hin.
+Qed.
+
+Lemma R1_nth j : (j < length (t_lens t))%nat ->
+  R1 j = target_row B gam (t_rrinv t) nq off nlen (nth j sts 0%nat) (nth j (t_lens t) 0%nat) (r_strand (sRes s j)).
+Proof.
+  intros Hj. unfold R1.
+  destruct (p_values_nth B gam (t_rrinv t) nq off nlen (t_lens t) 0 0 (sRes s)) as [H _].
+  apply (H j Hj).
+Qed.
+
+Lemma ref_den_pos nt : 0 < ref_den c nt.
+Proof.
+  unfold ref_den. apply prodZ_pos. intros x Hx. apply in_map_iff in Hx as [o [<- _]].
+  unfold cdf_den. apply Z.pow_pos_nonneg; [pose proof (D_pos c W); lia|]. unfold overlap_at. lia.
+Qed.
+Lemma ref_cdf_neg nt : (1 <= nt)%nat -> ref_cdf c nt (-1) = 0.
+Proof.
+  intros Hnt1. unfold ref_cdf. apply prodZ_zero.
+  pose proof (wf_nq c W) as Hnq. fold q nq in Hnq.
+  apply in_map_iff. exists (o_of c 0). split.
+  - unfold cdf_num.
+    assert (overlap_at c nt (o_of c 0) <= Z.of_nat nq).
+    { unfold overlap_at. pose proof (filter_length_le (aligned nt (o_of c 0)) (qcols c)) as H.
+      unfold qcols in H at 2. rewrite seq_length in H. fold q nq in H. lia. }
+    replace (Z.to_nat (-1 - off_z c * (Z.of_nat (q_nq (c_q c)) - overlap_at c nt (o_of c 0)) + 1)) with 0%nat.
+    + reflexivity.
+    + fold q nq. unfold off_z. assert (0 <= Z.of_nat (q_off (c_q c)) * (Z.of_nat nq - overlap_at c nt (o_of c 0))) by nia. lia.
+  - rewrite offsets_eq. apply in_map. apply in_seq. fold q nq. lia.
+Qed.
+
+(* what one strand of one target contributes, in the form the spec compares against *)
+Lemma strand_fields j : (j < length (t_lens t))%nat ->
+  let total := nth j sts 0%nat in let nt := nth j (t_lens t) 0%nat in
+  let best := best_ref c total nt in
+  r_score (R1 j) = best /\ attains c total nt best (r_off (R1 j)) (r_ovl (R1 j)) = true /\
+  peq (r_p (R1 j)) (p_ref c nt best).
+Proof.
+  intros Hj total nt best. rewrite R1_nth by exact Hj. fold total nt.
+  destruct (target_row_spec c W (sGam s) (sAcs s) (sB s) tmax total nt (r_strand (sRes s j)) (nt_range j Hj))
+    as [H1 [H2 [_ H4]]].
+  fold t q nq nb off nlen F gam B best in H1, H2, H4.
+  split; [exact H1|]. split; [exact H2|].
+  destruct H4 as [[Hpos ->]|[H0 ->]].
+  - apply peq_refl. unfold p_ref. cbn [snd]. apply ref_den_pos.
+  - rewrite H0. unfold p_ref. cbn [Z.sub]. change (0 - 1) with (-1).
+    fold (ref_cdf c nt (-1)). fold (ref_den c nt). rewrite ref_cdf_neg by (apply (nt_range j Hj)).
+    pose proof (ref_den_pos nt). unfold peq. cbn [fst snd]. split; [lia|]. split; [lia|ring].
+Qed.
+
+Lemma hist_ok_model : hist_ok c (model_f c) = true.
+Proof.
+  unfold hist_ok, model_f. fold t q.
+  apply (all2_intro _ 0%nat []).
+  - rewrite map_length. reflexivity.
+  - unfold qcols. fold q nq. rewrite seq_length. intros i Hi.
+    rewrite nth_map_seq_gen, seq_nth by lia. cbn [Nat.add]. cbn zeta.
+    pose proof (F_row c W i) as HF. fold t q nq F in HF. fold F. rewrite HF by lia. cbn [rden rnum].
+    apply (all2_intro _ 0%nat 0%Q).
+    + rewrite map_length, seq_length, (colpoly_length c). reflexivity.
+    + rewrite seq_length. intros v Hv. rewrite seq_nth by lia. cbn [Nat.add].
+      rewrite nth_indep with (d' := (fun v => Qmake v (Z.to_pos (D c))) 0)
+        by (rewrite map_length, (colpoly_length c); fold t nb; lia).
+      rewrite (map_nth (fun v => Qmake v (Z.to_pos (D c)))).
+      unfold colpoly at 1. fold t nb. rewrite nth_map_seq by lia. cbn [Nat.add].
+      apply Qle_bool_abs_zero; [reflexivity|]. unfold f_tol. discriminate.
+Qed.
+
+Lemma sts_nth j : (j < length (t_lens t))%nat ->
+  nth j (combine sts (t_lens t)) (0%nat, 0%nat) = (nth j sts 0%nat, nth j (t_lens t) 0%nat).
+Proof. intros Hj. apply combine_nth. unfold sts. apply starts_length. Qed.
+
+Lemma rows_fwd_ok : t_rc t = false ->
+  all2 (strand_ok c) (combine sts (t_lens t))
+       (map to_orow (map (clear_strand (length (t_lens t)) R1) (seq 0 (length (t_lens t))))) = true.
+Proof.
+  intros Hrc. apply (all2_intro _ (0%nat, 0%nat) (to_orow (mkrr (0, 1) 0 0 0 0))).
+  - rewrite combine_length, !map_length, seq_length. unfold sts. rewrite starts_length. lia.
+  - rewrite combine_length. unfold sts at 1. rewrite starts_length, Nat.min_id. intros j Hj.
+    rewrite sts_nth by exact Hj.
+    rewrite map_map, nth_map_seq_gen by exact Hj. cbn [Nat.add].
+    unfold clear_strand. replace (j <? length (t_lens t))%nat with true by lia.
+    destruct (strand_fields j Hj) as [H1 [H2 H3]]. cbn zeta in H1, H2, H3.
+    unfold strand_ok, to_orow. cbn [fst snd o_score o_off o_ovl o_p o_strand r_p r_score r_off r_ovl r_strand].
+    rewrite H1, Z.eqb_refl, H2. cbn [andb]. rewrite close_Qeq by (apply peq_toQ; exact H3). reflexivity.
+Qed.
+
+Lemma rows_rc_ok : t_rc t = true ->
+  let n := Nat.div (length (t_lens t)) 2 in
+  all2 (fun fb r => pair_ok c (fst fb) (snd fb) r)
+       (combine (firstn n (combine sts (t_lens t))) (skipn n (combine sts (t_lens t))))
+       (map to_orow (map (merge_rc n R1) (seq 0 n))) = true.
+Proof.
+  intros Hrc n. destruct (wf_rc c W Hrc) as [Hlen _]. fold t in Hlen. fold n in Hlen.
+  assert (Hts : length (combine sts (t_lens t)) = (2 * n)%nat).
+  { rewrite combine_length. unfold sts. rewrite starts_length. lia. }
+  apply (all2_intro _ ((0%nat, 0%nat), (0%nat, 0%nat)) (to_orow (mkrr (0, 1) 0 0 0 0))).
+  - rewrite combine_length, firstn_length, skipn_length, !map_length, seq_length, Hts. lia.
+  - rewrite combine_length, firstn_length, skipn_length, Hts.
+    replace (Nat.min (Nat.min n (2 * n)) (2 * n - n)) with n by lia. intros i Hi.
+    rewrite combine_nth by (rewrite firstn_length, skipn_length, Hts; lia).
+    rewrite nth_firstn by exact Hi. rewrite nth_skipn.
+    rewrite !sts_nth by lia. cbn [fst snd].
+    rewrite map_map, nth_map_seq_gen by exact Hi. cbn [Nat.add].
+    rewrite merge_rc_nth by exact Hi. cbn zeta. replace (i + n)%nat with (n + i)%nat by lia.
+    destruct (strand_fields i ltac:(lia)) as [A1 [A2 A3]]. cbn zeta in A1, A2, A3.
+    destruct (strand_fields (n + i) ltac:(lia)) as [B1 [B2 B3]]. cbn zeta in B1, B2, B3.
+    set (bf := best_ref c (nth i sts 0%nat) (nth i (t_lens t) 0%nat)) in *.
+    set (bb := best_ref c (nth (n + i) sts 0%nat) (nth (n + i) (t_lens t) 0%nat)) in *.
+    assert (Hp : close (toQ (psq (pmin (r_p (R1 i)) (r_p (R1 (n + i)%nat)))))
+                       (toQ (psq (pmin (p_ref c (nth i (t_lens t) 0%nat) bf)
+                                       (p_ref c (nth (n + i) (t_lens t) 0%nat) bb)))) = true).
+    { apply close_Qeq, peq_toQ, psq_peq, pmin_peq; assumption. }
+    unfold pair_ok. cbn [fst snd]. fold bf bb. rewrite A1, B1.
+    destruct (bf <=? bb) eqn:E; unfold to_orow;
+      cbn [o_score o_off o_ovl o_p o_strand r_p r_score r_off r_ovl r_strand]; rewrite Hp.
+    + replace (bb =? Z.max bf bb) with true by lia. rewrite B2. cbn [andb].
+      replace (1 =? 1) with true by reflexivity. rewrite !andb_true_r. apply orb_true_r.
+    + replace (bf =? Z.max bf bb) with true by lia. rewrite A2. cbn [andb].
+      replace (bb <=? bf) with true by lia. reflexivity.
+Qed.
+
+(* C14: for every well-formed input and EVERY initial scratch, the model's outcome satisfies the reference *)
+Theorem model_spec_ok_scratch : spec_ok c (model_ver fixed s c) = true.
+Proof.
+  unfold spec_ok. destruct (wf c); [|reflexivity].
+  unfold model_ver. cbn [o_f o_rows]. rewrite hist_ok_model. cbn [andb].
+  fold t q. rewrite rows_unfold. fold sts.
+  destruct (t_rc t) eqn:Hrc.
+  - unfold n_in. rewrite Hrc.
+    assert (length (combine sts (t_lens t)) = length (t_lens t)) as ->.
+    { rewrite combine_length. unfold sts. rewrite starts_length. lia. }
+    apply rows_rc_ok. exact Hrc.
+  - unfold n_in. rewrite Hrc. apply rows_fwd_ok. exact Hrc.
+Qed.
+End Final.
+
+Theorem model_spec_ok : forall c, spec_ok c (model c) = true.
+Proof.
+  intros c. destruct (wf c) eqn:E.
+  - apply model_spec_ok_scratch. apply wf_WF. exact E.
+  - unfold spec_ok. rewrite E. reflexivity.
+Qed.
+
+(* ================================================================== independence of scratch contents and of
+   the array dimensions (Q_max of the co-processed queries, n_cache): used by C13 *)
+Definition nostrand (r : rrow) : (Z * Z) * Z * Z * Z := (r_p r, r_score r, r_off r, r_ovl r).
+
+Lemma scan_fold_rel (B B' : arr) nq nt nlen nlen' (l : list (nat * Z)) : forall st st',
+  nostrand st = nostrand st' ->
+  (forall ks, In ks l -> p_lookup fixed B nt nlen (snd ks) = p_lookup fixed B' nt nlen' (snd ks)) ->
+  nostrand (fold_left (fun st ks => scan_step fixed B nq nt nlen st (fst ks) (snd ks)) l st)
+  = nostrand (fold_left (fun st ks => scan_step fixed B' nq nt nlen' st (fst ks) (snd ks)) l st').
+Proof.
+  induction l as [|ks l IH]; intros st st' Hst Hp; cbn [fold_left]; [exact Hst|].
+  apply IH; [|intros; apply Hp; right; assumption].
+  unfold nostrand in Hst. injection Hst as E1 E2 E3 E4.
+  unfold scan_step. rewrite (Hp ks) by (left; reflexivity). rewrite E2, E3.
+  destruct (snd ks >=? r_score st'); [|unfold nostrand; congruence].
+  destruct ((snd ks =? r_score st') && (r_off st' >=? overlap_of (fst ks) nq nt)); unfold nostrand; cbn; congruence.
+Qed.
+
+Section Indep.
+Variables (t : tdata) (q : qdata) (d d' : dims) (s s' : scratch).
+Let c := mkcall t d q.
+Let c' := mkcall t d' q.
+Hypothesis W : WF c.
+Hypothesis W' : WF c'.
+Let nq := q_nq q.
+Let nb := t_nbins t.
+Let off := q_off q.
+Let F := stage_f t q.
+Let tmax := tmax_of t.
+
+Lemma target_row_indep total nt st st' : (1 <= nt <= tmax)%nat ->
+  nostrand (target_row (snd (backgrounds fixed F nq nb off (nlen_of t d) tmax (sAcs s) (sB s)))
+              (stage_gamma fixed q (sGam s)) (t_rrinv t) nq off (nlen_of t d) total nt st)
+  = nostrand (target_row (snd (backgrounds fixed F nq nb off (nlen_of t d') tmax (sAcs s') (sB s')))
+              (stage_gamma fixed q (sGam s')) (t_rrinv t) nq off (nlen_of t d') total nt st').
+Proof.
+  intros Hnt. unfold target_row.
+  pose proof (wf_nq c W) as Hnq. change (1 <= nq)%nat in Hnq.
+  set (ts := tsums (stage_gamma fixed q (sGam s)) (t_rrinv t) total nt nq off).
+  set (ts' := tsums (stage_gamma fixed q (sGam s')) (t_rrinv t) total nt nq off).
+  assert (Hl : length ts = (nt + nq - 1)%nat) by apply (tsums_length c).
+  assert (Hl' : length ts' = (nt + nq - 1)%nat) by apply (tsums_length c').
+  assert (HT : forall k, (k < nt + nq - 1)%nat -> coef ts k = score_at c total nt (o_of c k)).
+  { intros k Hk. apply (tsums_score c W); [lia|exact Hk]. }
+  assert (Hts : ts' = ts).
+  { apply nth_ext with (d := 0) (d' := 0); [lia|]. intros k Hk. rewrite Hl' in Hk.
+    rewrite HT by exact Hk. apply (tsums_score c' W'); [lia|exact Hk]. }
+  rewrite Hts. apply scan_fold_rel; [reflexivity|].
+  intros [k sc] Hin. cbn [snd]. apply in_combine_r in Hin. apply In_nth with (d := 0) in Hin as [idx [Hidx <-]].
+  rewrite Hl in Hidx. rewrite HT by exact Hidx.
+  pose proof (score_range c W (sGam s) total nt (o_of c idx)) as Hr.
+  set (sc := score_at c total nt (o_of c idx)) in *.
+  unfold p_lookup. cbn [fixed v_p0]. destruct (sc >? 0) eqn:E; [|reflexivity].
+  assert (Hs : (Z.to_nat (sc - 1) < t_nbins (c_t c) * q_nq (c_q c) + q_nq (c_q c) * q_off (c_q c))%nat).
+  { cbn [c c_t c_q]. fold nb nq off. cbn [c c_t c_q] in Hr. fold nb nq off in Hr. lia. }
+  destruct (B_is_null c W (sAcs s) (sB s) tmax nt _ Hnt Hs) as [Hd Hc].
+  destruct (B_is_null c' W' (sAcs s') (sB s') tmax nt _ Hnt Hs) as [Hd' Hc'].
+  unfold cell. cbn [c c' c_t c_q c_d] in Hd, Hc, Hd', Hc'. fold nq nb off F in Hd, Hc, Hd', Hc'.
+  rewrite Hd, Hc, Hd', Hc'. reflexivity.
+Qed.
+
+(* scratch_independent / dims_independent: the result rows of a query do not depend on what the
+   scratch arrays held, nor on the dimensions Q_max / n_cache they were allocated with *)
+Theorem rows_independent : snd (run_query t d q s) = snd (run_query t d' q s').
+Proof.
+  unfold run_query.
+  change (snd (run_query_ver fixed (c_t c) (c_d c) (c_q c) s)
+          = snd (run_query_ver fixed (c_t c') (c_d c') (c_q c') s')).
+  rewrite (rows_unfold c s), (rows_unfold c' s'). cbn [c c' c_t c_q c_d].
+  fold nq nb off F tmax.
+  apply map_ext_in. intros j Hj. apply in_seq in Hj.
+  assert (Hrows : forall i, (i < length (t_lens t))%nat ->
+            nostrand (p_values fixed (stage_gamma fixed q (sGam s))
+                        (snd (backgrounds fixed F nq nb off (nlen_of t d) tmax (sAcs s) (sB s)))
+                        (t_rrinv t) nq off (nlen_of t d) (t_lens t) 0 0 (sRes s) i)
+            = nostrand (p_values fixed (stage_gamma fixed q (sGam s'))
+                        (snd (backgrounds fixed F nq nb off (nlen_of t d') tmax (sAcs s') (sB s')))
+                        (t_rrinv t) nq off (nlen_of t d') (t_lens t) 0 0 (sRes s') i)).
+  { intros i Hi.
+    pose proof (R1_nth c s i Hi) as E1. pose proof (R1_nth c' s' i Hi) as E2.
+    cbn [c c' c_t c_q c_d] in E1, E2. fold nq nb off F tmax in E1, E2. rewrite E1, E2.
+    apply target_row_indep. apply (nt_range c W i Hi). }
+  destruct (t_rc t) eqn:Hrc.
+  - unfold n_in in Hj. rewrite Hrc in Hj.
+    destruct (wf_rc c W Hrc) as [Hlen _]. cbn [c c_t] in Hlen.
+    rewrite !merge_rc_nth by lia. cbn zeta.
+    pose proof (Hrows j ltac:(lia)) as Ha. pose proof (Hrows (j + n_in t)%nat ltac:(unfold n_in; rewrite Hrc; lia)) as Hb.
+    unfold nostrand in Ha, Hb. injection Ha as A1 A2 A3 A4. injection Hb as B1 B2 B3 B4.
+    rewrite A1, A2, A3, A4, B1, B2, B3, B4. reflexivity.
+  - unfold n_in in Hj. rewrite Hrc in Hj. unfold clear_strand.
+    replace (j <? length (t_lens t))%nat with true by lia.
+    pose proof (Hrows j ltac:(lia)) as Ha. unfold nostrand in Ha. injection Ha as A1 A2 A3 A4.
+    rewrite A1, A2, A3, A4. reflexivity.
+Qed.
+End Indep.
